@@ -23,6 +23,7 @@ type routerLike interface {
 
 type wrapLike interface {
 	UnwrapService() (grpc.ClientConnInterface, grpc.ServiceDesc)
+	Unwrap() any
 }
 
 type entry struct {
@@ -67,8 +68,10 @@ func main() {
 	runRegen(f, res)
 	runForward(f, res, drv)
 	runE2ECases(f, res)
+	runWrappers(f, res)
 	runRegistry(f, res, drv)
 	runConc(f, res, drv)
+	runLin(f, res, drv)
 	runStress(f, res)
 	runName(f, res, drv)
 	if err := res.Write(f.Out); err != nil {
